@@ -326,6 +326,8 @@ func (x *c12) checkConstructor() {
 	cReg := fname + " registers fatal closer iff grace period"
 	x.seen("C12.K5-fatal", cFatal, p.Pos(fn.Pos()))
 	x.seen("C12.K5-fatal", cReg, p.Pos(fn.Pos()))
+	cOwnClosers := fname + " internal closers contribute no error"
+	x.seen("C12.K2-filter", cOwnClosers, p.Pos(fn.Pos()))
 	if len(callers) == 0 {
 		x.bad("C12.K5-fatal", cFatal, p.Pos(fn.Pos()), "the fatal shutdown function is never called: closers that outlast the grace period are not cut short")
 		return
@@ -373,6 +375,10 @@ func (x *c12) checkConstructor() {
 		}
 		for _, v := range vals {
 			f := funcOfValue(st, v)
+			if f != nil {
+				// a closer the constructor registers itself
+				x.ownErrorFree(f, false, "C12.K2-filter", cOwnClosers, "the internal closer")
+			}
 			if f == nil || !isFatalCloser(f) {
 				continue
 			}
